@@ -83,10 +83,13 @@ def run_driver(exe, sp, tp, nscenarios):
         if p.returncode == 0:
             break
         last = None
-        with open(tp) as f:
+        with open(tp, errors="replace") as f:      # a corrupted process may write garbage
             for line in f:
                 if line.startswith('{"ev":"running"'):
-                    last = json.loads(line)["index"]
+                    try:
+                        last = json.loads(line)["index"]
+                    except ValueError:
+                        pass
         aborts += 1
         with open(tp, "a") as f:
             f.write("\n" + json.dumps({"ev": "abort", "rc": p.returncode}) + "\n")
@@ -95,9 +98,10 @@ def run_driver(exe, sp, tp, nscenarios):
         skip = last + 1
     # drop the bookkeeping lines (and partial lines of a killed run)
     nev = 0
-    with open(tp) as f, open(tp + ".clean", "w") as o:
+    from lab_pipe import sanitize
+    with open(tp, errors="replace") as f, open(tp + ".clean", "w") as o:
         for line in f:
-            line = line.strip()
+            line = sanitize(line.strip())
             if not line or line.startswith('{"ev":"running"'):
                 continue
             try:
